@@ -368,8 +368,16 @@ class _resolve_called_lambdas(ast.NodeTransformer):
         if isinstance(node.func, ast.Lambda):
             lambda_node = node.func
 
-            # Ensure the lambda has arguments and a body
-            if len(lambda_node.args.args) == len(node.args):
+            # Only plain positional calls that bind every parameter can be substituted
+            l_args = lambda_node.args
+            only_plain_args = not (
+                l_args.posonlyargs or l_args.vararg or l_args.kwonlyargs or l_args.kwarg
+            ) and not any(isinstance(a, ast.Starred) for a in node.args)
+            if (
+                only_plain_args
+                and len(node.keywords) == 0
+                and len(lambda_node.args.args) == len(node.args)
+            ):
                 arg_map = {
                     lambda_node.args.args[i].arg: self.visit(node.args[i])
                     for i in range(len(lambda_node.args.args))
